@@ -165,6 +165,51 @@ theorem C07_flags (a : AlgoParams) (ha : a ∈ Gen.symmetricRows) (m : Mode) (pS
   obtain ⟨p, -, rfl⟩ := hi
   rw [hfl, hty]
 
+/-! ### OpenSecureChannel chunks (asymmetric algorithms, never split) -/
+
+/-- what is assumed about the RSA primitives: block-wise encryption maps whole
+    plaintext blocks to whole cipher blocks and is undone by the receiver's
+    private key; signatures have the length of the signer's key and verify -/
+structure AsymOK (ls rs pad : Nat) (cS cR : Crypto) : Prop where
+  sign_ok : ∀ m, ∃ sg, cS.sign m = some sg ∧ sg.length = ls ∧ cR.verify m sg = true
+  enc_ok : ∀ p : Bytes, 0 < p.length → p.length % (rs - pad) = 0 →
+    ∃ q, cS.enc p = some q ∧ q.length = p.length / (rs - pad) * rs ∧ cR.dec q = some p
+
+theorem paired_asym (ls rs pad : Nat) (hpad : pad < rs) (hrs : rs ≤ 65536) (m : Mode) (pS pR : Bool)
+    (cS cR : Crypto) (hc : AsymOK ls rs pad cS cR) :
+    Paired ⟨m, pS, asymParams ls rs pad, cS⟩ ⟨m, pR, asymParams rs ls pad, cR⟩ := by
+  have e1 : ((rs : Int) - (pad : Int)).toNat = rs - pad := by omega
+  refine { mode := rfl, pbs_pos := ?_, rsl := ?_, extra := ?_, pad_fits := ?_, sign_ok := ?_, enc_ok := ?_ }
+  · simp only [asymParams, e1]; omega
+  · simp [asymParams]
+  · simp [asymParams]
+  · simp only [asymParams, e1]
+    by_cases h256 : (rs : Int) > 256 <;> simp [h256] <;> omega
+  · simpa [asymParams] using hc.sign_ok
+  · simpa only [asymParams, e1, Int.toNat_natCast] using hc.enc_ok
+
+/-- OPN ROUND TRIP, for ALL pairs of key sizes (sender `ls`, receiver `rs`,
+    bytes, up to 65536), any per-block overhead `pad < rs`, any header length
+    ≥ 8 and any raw chunk: the receiver (whose local key is the sender's remote
+    key and vice versa) gets back exactly what followed the security header; the
+    MessageSize field of the secured chunk is its length (as uint32).  This covers the
+    ExtraPaddingSize byte, which the sender decides from the RECEIVER's key
+    (`RemoteSignatureLength() > 256`) and the receiver from its OWN key
+    (`SignatureLength() > 256`): the two tests agree for every size pair. -/
+theorem C07_opn_roundtrip (ls rs pad : Nat) (hpad : pad < rs) (hrs : rs ≤ 65536)
+    (m : Mode) (hm : m ≠ .none) (pS pR : Bool) (cS cR : Crypto) (hc : AsymOK ls rs pad cS cR)
+    (hl : Nat) (hl8 : 8 ≤ hl) (b : Bytes) (hb : hl ≤ b.length) :
+    ∃ w, signAndEncrypt ⟨m, pS, asymParams ls rs pad, cS⟩ true hl b = .ok w ∧
+      verifyAndDecrypt ⟨m, pR, asymParams rs ls pad, cR⟩ true hl w = .ok (b.drop hl) ∧
+      u32At w 4 = w.length % 4294967296 := by
+  have hp := paired_asym ls rs pad hpad hrs m pS pR cS cR hc
+  obtain ⟨q, hq, h1, h2⟩ := secure_roundtrip hp true hl hl8 b hb hm
+  refine ⟨_, h1, h2, ?_⟩
+  have hH : (putU32 (b.take hl) 4 (hl + q.length)).length = hl := by
+    rw [putU32_length _ _ _ (by simp [List.length_take]; omega)]; simp [List.length_take]; omega
+  rw [u32At_append_left _ _ _ (by omega), u32At_putU32 _ _ _ (by simp [List.length_take]; omega)]
+  simp only [List.length_append, hH]
+
 /-! ### the hypothesis on the sequence counter is needed -/
 
 /-- a null cipher: mode None needs none of the primitives -/
